@@ -127,6 +127,41 @@ func TestVerifC04Composite(t *testing.T) {
 	vs.Run(t, "C04", func(c *vs.Case) error { return vw.PropC04(c, compositeFactory) })
 }
 
+func TestVerifC11Regressions(t *testing.T) {
+	vs.RunFixed(t, "C11", map[string]func() error{
+		// a sync answer that says finalized: the finalizer removal re-reads the parent; the status must
+		// still report the generation the hook was shown, not the one of the fresh read
+		"finalized-answer-with-stale-parent-cache": func() error {
+			scn := vw.FixedScn("configmaps", "InPlace", []string{"c0"}, 2)
+			scn.Prog.SyncFinalized = true
+			env, err := vw.NewEnv(scn, compositeFactory)
+			if err != nil {
+				return err
+			}
+			env.W.SyncAll()
+			// the live parent moves on to generation 2, the cache still shows generation 1
+			env.W.Sim.ExtUpdate(scn.Cfg.ParentResource, scn.ParentNS(), scn.ParentName(), func(o map[string]any) {
+				o["spec"].(map[string]any)["other"] = "edited"
+			})
+			tr := env.Sync()
+			if tr.Panic != "" {
+				return vs.Violf("C11/panic", "%s", tr.Panic)
+			}
+			var sent any
+			for _, h := range tr.Hooks {
+				if p, ok := h.Request["parent"].(map[string]any); ok {
+					sent = p["metadata"].(map[string]any)["generation"]
+				}
+			}
+			st, _ := env.Parent()["status"].(map[string]any)
+			if st != nil && !vs.JSONEqual(st["observedGeneration"], sent) {
+				return vs.Violf("C11/status-wrong", "the hook was shown generation %v but the status written says observedGeneration %v", sent, st["observedGeneration"])
+			}
+			return nil
+		},
+	})
+}
+
 func TestVerifC07Regressions(t *testing.T) {
 	vs.RunFixed(t, "C07", map[string]func() error{
 		// F3: the hook already returns a condition of type Updated; the rollout state must still be reported
